@@ -424,6 +424,15 @@ def unit_windows(prop):
     return unit
 
 
+def unit_gabor(prop):
+    def unit(tier, known):
+        from contracts import filters_gabor as C
+        jobs = [("contracts.filters_gabor", "generate", (prop, label)) for label in C.LABELS]
+        return run_parallel("gabor_init", jobs, to_case=C.to_case_c05, replay_module="rtc.c05")
+    unit.__name__ = "gabor_init"
+    return unit
+
+
 def unit_stack(prop):
     def unit(tier, known):
         from contracts import post_stack as C
@@ -445,7 +454,7 @@ UNITS = {
     "C18": [unit_pre("C18", "preemph"), unit_pre("C18", "dither")],
     "C12": [unit_copy_samples("C12"), _lazy("contracts.sphere", "unit_g711", "C12"), unit_header_validation("C12")],
     "C20": [unit_circshift("C20"), _lazy("contracts.util_misc", "unit_angular", "C20"), unit_windows("C20")],
-    "C05": [unit_tri("C05", "init"), unit_tri("C05", "truncated"), unit_fbank("C05", "init"), unit_fbank("C05", "truncated")],
+    "C05": [unit_tri("C05", "init"), unit_tri("C05", "truncated"), unit_fbank("C05", "init"), unit_fbank("C05", "truncated"), unit_gabor("C05")],
     "C06": [unit_tri("C06", "truncated"), unit_tri("C06", "init"), unit_fbank("C06", "truncated"), unit_fbank("C06", "init")],
     "C14": [unit_torch_stft("C14"), unit_torch_wrappers("C14"), _lazy("contracts.torch_wrappers", "unit_from_stft", "C14")],
     "C09": [unit_torch_stft("C09")] + [_lazy_list("contracts.cli", "units", "C09", k) for k in range(2)],
